@@ -67,11 +67,20 @@ def judge(m, run, mode, label, col, row, grecs=None):
     d = run['dump']
     if d is None or '_unparsable' in (d or {}): return out
     requested = mode >= 2 or (mode == 1 and (col is not None or row is not None))
-    if not requested: return out
     norig = len(m.vars); nc = len(m.acons) + len(m.lcons)
     vnames = [v[3] for v in d['vars']]
     cnames = [c.get('name', '') for c in d['cons']]
     onames = [o.get('name', '') for o in d['objs'] if o]
+    implicit = False
+    if not requested:
+        # names were not requested, but the graph export makes the converter generate them (mp::Problem::item_name:
+        # _x[i], _CONi_, _LCONi_, _OBJi_): whatever is delivered then must still be complete, derived and unique
+        if not any(vnames) and not any(cnames): return out
+        implicit = True; label = label + '/implicit'
+        col = ['_x[%d]' % (j + 1) for j in range(norig + len(m.dvars))]
+        row = ['_CON%d_' % (i + 1) for i in range(len(m.acons))] + ['_LCON%d_' % (i + 1) for i in range(len(m.lcons))] + \
+              ['_OBJ%d_' % (k + 1) for k in range(len(m.objs))]
+        mode = 1
     # 1. completeness
     for i, n in enumerate(vnames):
         if not n: out.append(('C19 delivered variable without a name (%s)' % ('original' if i < norig else 'auxiliary'), {'var': i, 'mode': mode, 'files': label})); break
